@@ -238,6 +238,13 @@ func (ex *explorer) visit(prefix []int) [][]int {
 			ex.record(f, e)
 		}
 	}
+	if e.Leaked > 0 {
+		// a task could not be unwound (it blocks for real inside deferred
+		// code): its goroutine lives on, so this process explores no further
+		st.Err = fmt.Sprintf("%s: %d task(s) could not be unwound after schedule %v (real blocking inside a deferred call); exploration of this scenario stopped", ex.sc.Name, e.Leaked, e.Choices)
+		st.Complete = false
+		return nil
+	}
 	var children [][]int
 	usedP, usedD := 0, 0
 	for i := range e.Points {
